@@ -223,6 +223,89 @@ def _scan_defaults():
     return out
 
 
+_PRISTINE_GLOBALS = None
+_PRISTINE_NMODS = 0
+# memo of synthesized *types* (concrete keys and values): kept across paths, like the classes of the modules themselves
+_KEPT_CACHES = ("TPMS_PARAMS.encrypted",)
+
+
+def _scan_globals():
+    """module-level and class-level containers and lru_caches of the analysed package, with a shallow copy each"""
+    import collections
+    import copy
+    import functools
+    import inspect
+
+    kinds = (dict, list, set, bytearray, collections.defaultdict, collections.OrderedDict, collections.deque)
+    conts, caches, seen = [], [], set()
+    for name, mod in list(sys.modules.items()):
+        if not name.startswith("tpmstream") or mod is None:
+            continue
+        objs = list(vars(mod).values())
+        for o in list(objs):
+            if inspect.isclass(o) and getattr(o, "__module__", "").startswith("tpmstream"):
+                objs.extend(vars(o).values())
+        for o in objs:
+            o = getattr(o, "__func__", o)
+            if id(o) in seen:
+                continue
+            seen.add(id(o))
+            if type(o) in kinds:
+                conts.append((o, copy.copy(o)))
+            elif isinstance(o, functools._lru_cache_wrapper):
+                qn = getattr(getattr(o, "__wrapped__", None), "__qualname__", "")
+                if qn not in _KEPT_CACHES:
+                    caches.append((o, o.cache_info().currsize))
+    return conts, caches
+
+
+def _unchanged(o, snap):
+    if len(o) != len(snap):
+        return False
+    if isinstance(snap, dict):
+        return all((k in o) and (o[k] is v) for k, v in snap.items())
+    if isinstance(snap, (set,)):
+        return all(x in o for x in snap)
+    return all(a is b for a, b in zip(o, snap))
+
+
+def restore_module_state():
+    """Every path starts from the state the package had when it was imported: containers at module / class level
+    that a path changed are put back, memo caches a path filled are emptied (their keys may hold values of a
+    dead state space).  Does nothing on code that keeps no such state."""
+    global _PRISTINE_GLOBALS, _PRISTINE_NMODS
+    n = sum(1 for m in sys.modules if m.startswith("tpmstream"))
+    if _PRISTINE_GLOBALS is None or n != _PRISTINE_NMODS:
+        known = {id(o) for o, _ in (_PRISTINE_GLOBALS[0] if _PRISTINE_GLOBALS else [])} | {
+            id(o) for o, _ in (_PRISTINE_GLOBALS[1] if _PRISTINE_GLOBALS else [])}
+        conts, caches = _scan_globals()
+        if _PRISTINE_GLOBALS is None:
+            _PRISTINE_GLOBALS = (conts, caches)
+        else:
+            _PRISTINE_GLOBALS[0].extend(c for c in conts if id(c[0]) not in known)
+            _PRISTINE_GLOBALS[1].extend(c for c in caches if id(c[0]) not in known)
+        _PRISTINE_NMODS = n
+    for o, snap in _PRISTINE_GLOBALS[0]:
+        try:
+            same = _unchanged(o, snap)
+        except Exception:
+            same = False
+        if not same:
+            chsetup.HIT.add("ISO")
+            if isinstance(o, (list, bytearray)):
+                o[:] = snap
+            elif hasattr(o, "update"):
+                o.clear()
+                o.update(snap)
+            else:
+                o.clear()
+                o.extend(snap)
+    for c, size in _PRISTINE_GLOBALS[1]:
+        if c.cache_info().currsize != size:
+            chsetup.HIT.add("ISO")
+            c.cache_clear()
+
+
 def restore_mutable_defaults():
     global _PRISTINE_DEFAULTS
     import copy
@@ -234,6 +317,7 @@ def restore_mutable_defaults():
             f.__defaults__ = copy.deepcopy(d)
         if kd is not None:
             f.__kwdefaults__ = copy.deepcopy(kd)
+    restore_module_state()
 
 
 class _HardTimeout(BaseException):
